@@ -296,7 +296,7 @@ func init() {
 		realistic: func(t *kernel.Tape, f *valgen.Filler) interface{} { return valgen.Log(t, false) }})
 	add(&target{name: "types.LogForStorage", typ: typeOf((*types.LogForStorage)(nil)), weight: 1, handmade: storageLogBytes,
 		realistic: func(t *kernel.Tape, f *valgen.Filler) interface{} { return (*types.LogForStorage)(valgen.Log(t, true)) }})
-	add(&target{name: "state.Account", typ: typeOf((*state.Account)(nil)), weight: 4, noForeign: true})
+	add(&target{name: "state.Account", typ: typeOf((*state.Account)(nil)), weight: 4}) // noForeign guard removed: map length bomb fixed in /repo f929d34
 	add(&target{name: "types.UTXOOutputData", typ: typeOf((*types.UTXOOutputData)(nil)), weight: 1})
 	// ---- reactor and WAL messages (decoded into their interface types, the
 	// call each reactor's decodeMsg makes after its size guard)
